@@ -322,7 +322,7 @@ pub fn run_market_pair<S>(
 pub fn c20(ctx: &Ctx) -> i32 {
     let env_shapes = crate::shapes_gen::env_shapes();
     let market_shapes = crate::shapes_gen::market_shapes();
-    let seeds = ctx.tier.pick(250, 10_000);
+    let seeds = ctx.tier.pick(600, 10_000);
     let rounds = 4;
     let mut violations = Vec::new();
     let mut evals = 0u64;
